@@ -1,4 +1,5 @@
 import DDP.Impl.Resolve
+import DDP.Impl.AliasMatch
 
 /-!
 # C09 — calls resolve to the longest type-matching alias
@@ -145,3 +146,430 @@ theorem select_some (cs : List Cand) (d : Cand) (hd : d ∈ cs) (hf : d.fits = t
 example : (select [⟨1, 2, 0, 0, true⟩, ⟨2, 3, 0, 0, false⟩, ⟨3, 2, 1, 0, true⟩, ⟨4, 2, 0, 1, true⟩]).map (·.id) = some 4 := by decide
 
 end DDP.Resolve
+
+/-!
+# C09 (second part) — how the tokens of a call are bound to the placeholders of an alias
+
+Theorems about `DDP.AliasMatch` (transcription of the `Search` callback in `parser.alias` and of
+the argument loop of `parser.checkAlias`).
+-/
+
+set_option linter.unusedSimpArgs false
+
+namespace DDP.AliasMatch
+
+/-! ### the parenthesis loop -/
+
+theorem closeParen_le : ∀ (ts : List Tok) (d n : Nat), closeParen d ts = some n → n ≤ ts.length := by
+  intro ts
+  induction ts with
+  | nil => intro d n h; cases d <;> simp [closeParen] at h; omega
+  | cons t r ih =>
+    intro d n h
+    cases d with
+    | zero => simp [closeParen] at h; omega
+    | succ d =>
+      simp only [closeParen] at h
+      split at h <;> (
+        obtain ⟨m, hc, hm⟩ := Option.map_eq_some_iff.mp h
+        have := ih _ _ hc
+        simp only [List.length_cons]; omega)
+
+theorem closeParen_pos (ts : List Tok) (d n : Nat) (h : closeParen (d + 1) ts = some n) : 0 < n := by
+  cases ts with
+  | nil => simp [closeParen] at h
+  | cons t r =>
+    simp only [closeParen] at h
+    split at h <;> (
+      obtain ⟨m, hc, hm⟩ := Option.map_eq_some_iff.mp h
+      omega)
+
+/-- the loop of `checkAlias` (no end-of-input test) consumes the same tokens whenever the loop of
+the `Search` callback succeeds -/
+theorem closeParenLax_eq : ∀ (ts : List Tok) (d n : Nat), closeParen d ts = some n → closeParenLax d ts = n := by
+  intro ts
+  induction ts with
+  | nil => intro d n h; cases d <;> simp [closeParen] at h; simp [closeParenLax, h]
+  | cons t r ih =>
+    intro d n h
+    cases d with
+    | zero => simp [closeParen] at h; simp [closeParenLax, h]
+    | succ d =>
+      simp only [closeParen] at h
+      simp only [closeParenLax]
+      split at h <;> (
+        obtain ⟨m, hc, hm⟩ := Option.map_eq_some_iff.mp h
+        rw [ih _ _ hc]; exact hm)
+
+/-- the tokens the loop consumes bring the depth back to 0 … -/
+theorem closeParen_depth : ∀ (ts : List Tok) (d n : Nat), closeParen d ts = some n → depthAfter d (ts.take n) = some 0 := by
+  intro ts
+  induction ts with
+  | nil => intro d n h; cases d <;> simp [closeParen] at h; simp [h, depthAfter]
+  | cons t r ih =>
+    intro d n h
+    cases d with
+    | zero => simp [closeParen] at h; simp [← h, depthAfter]
+    | succ d =>
+      simp only [closeParen] at h
+      split at h <;> rename_i hk <;> (
+        obtain ⟨m, hc, hm⟩ := Option.map_eq_some_iff.mp h
+        subst hm
+        simp only [List.take_succ_cons, depthAfter, hk]
+        exact ih _ _ hc)
+
+/-- … and no shorter prefix does: the argument ends at the *matching* parenthesis -/
+theorem closeParen_first : ∀ (ts : List Tok) (d n : Nat), closeParen (d + 1) ts = some n →
+    ∀ m, m < n → ∃ e, depthAfter (d + 1) (ts.take m) = some (e + 1) := by
+  intro ts
+  induction ts with
+  | nil => intro d n h; simp [closeParen] at h
+  | cons t r ih =>
+    intro d n h m hm
+    cases m with
+    | zero => exact ⟨d, by simp [depthAfter]⟩
+    | succ m =>
+      simp only [closeParen] at h
+      split at h <;> rename_i hk
+      · obtain ⟨k, hc, hk2⟩ := Option.map_eq_some_iff.mp h
+        simp only [List.take_succ_cons, depthAfter, hk]
+        exact ih (d + 1) k hc m (by omega)
+      · obtain ⟨k, hc, hk2⟩ := Option.map_eq_some_iff.mp h
+        cases d with
+        | zero => simp [closeParen] at hc; omega
+        | succ d =>
+          simp only [List.take_succ_cons, depthAfter, hk]
+          exact ih d k hc m (by omega)
+      · obtain ⟨k, hc, hk2⟩ := Option.map_eq_some_iff.mp h
+        simp only [List.take_succ_cons, depthAfter]
+        exact ih d k hc m (by omega)
+
+/-! ### one argument -/
+
+/-- an argument is never empty and never longer than what is there -/
+theorem argSearch_bounds (ts : List Tok) (k : Nat) (h : argSearch ts = some k) : 0 < k ∧ k ≤ ts.length := by
+  cases ts with
+  | nil => simp [argSearch] at h
+  | cons t r =>
+    simp only [argSearch] at h
+    split at h
+    · simp at h; subst h; simp
+    · simp at h; subst h; simp
+    · split at h
+      · split at h <;> simp at h
+        subst h; simp
+      · simp at h
+    · split at h
+      · rename_i n hc
+        split at h
+        · simp at h
+        · simp at h; subst h
+          have := closeParen_le _ _ _ hc
+          simp; omega
+      · simp at h
+    · simp at h
+
+/-- **The two loops agree.**  Whenever the `Search` callback accepts an argument of `k` tokens,
+`checkAlias` cuts out exactly those `k` tokens for the argument's sub-parser. -/
+theorem spanCheck_eq (ts : List Tok) (k : Nat) (h : argSearch ts = some k) : spanCheck ts = k := by
+  cases ts with
+  | nil => simp [argSearch] at h
+  | cons t r =>
+    simp only [argSearch] at h
+    simp only [spanCheck]
+    split at h
+    · rename_i hk; simp at h; simp [hk, h]
+    · rename_i hk; simp at h; simp [hk, h]
+    · rename_i hk
+      split at h
+      · rename_i n r'
+        split at h
+        · rename_i hn; simp at h; simp [hk, hn, h]
+        · simp at h
+      · simp at h
+    · rename_i hk
+      split at h
+      · rename_i n hc
+        split at h
+        · simp at h
+        · simp at h; simp [hk, closeParenLax_eq _ _ _ hc, h]
+      · simp at h
+    · simp at h
+
+/-- a parenthesised argument is `(` … `)` with balanced content, and something follows it -/
+theorem paren_arg_shape (t : Tok) (r : List Tok) (k : Nat) (ht : t.kind = .lparen) (h : argSearch (t :: r) = some k) :
+    ∃ n, k = n + 1 ∧ depthAfter 1 (r.take n) = some 0 ∧ (∀ m, m < n → ∃ e, depthAfter 1 (r.take m) = some (e + 1)) ∧
+      r.drop n ≠ [] := by
+  simp only [argSearch, ht] at h
+  split at h
+  · rename_i n hc
+    split at h
+    · simp at h
+    · rename_i hd
+      simp at h
+      exact ⟨n, h.symm, closeParen_depth _ _ _ hc, closeParen_first _ _ _ hc, hd⟩
+  · simp at h
+
+/-- what follows the call does not influence an accepted argument -/
+theorem closeParen_append : ∀ (ts ex : List Tok) (d n : Nat), closeParen d ts = some n → closeParen d (ts ++ ex) = some n := by
+  intro ts
+  induction ts with
+  | nil => intro ex d n h; cases d <;> simp [closeParen] at h; subst h; cases ex <;> simp [closeParen]
+  | cons t r ih =>
+    intro ex d n h
+    cases d with
+    | zero => simp [closeParen] at h; subst h; simp [closeParen]
+    | succ d =>
+      simp only [closeParen] at h
+      simp only [List.cons_append, closeParen]
+      split at h <;> rename_i hk <;> (
+        obtain ⟨m, hc, hm⟩ := Option.map_eq_some_iff.mp h
+        simp [ih ex _ _ hc, hm])
+
+theorem argSearch_append (ts ex : List Tok) (k : Nat) (h : argSearch ts = some k) : argSearch (ts ++ ex) = some k := by
+  cases ts with
+  | nil => simp [argSearch] at h
+  | cons t r =>
+    simp only [argSearch] at h
+    simp only [List.cons_append, argSearch]
+    split at h
+    · rename_i hk; simp [hk]; simpa using h
+    · rename_i hk; simp [hk]; simpa using h
+    · rename_i hk
+      split at h
+      · rename_i n r'
+        split at h
+        · rename_i hn; simp at h; simp [hk, hn, h]
+        · simp at h
+      · simp at h
+    · rename_i hk
+      split at h
+      · rename_i n hc
+        split at h
+        · simp at h
+        · rename_i hd
+          simp at h
+          have hle := closeParen_le _ _ _ hc
+          simp only [hk, closeParen_append _ ex _ _ hc]
+          have : (r ++ ex).drop n ≠ [] := by
+            rw [List.drop_append_of_le_length hle]
+            intro h2; exact hd (List.append_eq_nil_iff.mp h2).1
+          simp [this, h]
+      · simp at h
+    · simp at h
+
+/-! ### a whole pattern -/
+
+def params : List Pat → List Nat
+  | [] => []
+  | .word _ :: ps => params ps
+  | .param n :: ps => n :: params ps
+
+def wordCount : List Pat → Nat
+  | [] => 0
+  | .word _ :: ps => wordCount ps + 1
+  | .param _ :: ps => wordCount ps
+
+/-- the call as the pattern's words and the bound arguments spell it -/
+def reassemble : List Pat → List Binding → List Tok
+  | [], _ => []
+  | .word w :: ps, bs => w :: reassemble ps bs
+  | .param _ :: ps, b :: bs => b.2 ++ reassemble ps bs
+  | .param _ :: ps, [] => reassemble ps []
+
+/-- **A match is a partition of the call.**  The tokens of the call are exactly the words of the
+pattern with the arguments in the places of the placeholders, followed by the rest; the
+arguments are bound to the placeholders' names in pattern order and none is empty. -/
+theorem matchPat_partition : ∀ (ps : List Pat) (ts : List Tok) (bs : List Binding) (rest : List Tok),
+    matchPat ps ts = some (bs, rest) →
+    ts = reassemble ps bs ++ rest ∧ bs.map (·.1) = params ps ∧ ∀ b ∈ bs, b.2 ≠ [] := by
+  intro ps
+  induction ps with
+  | nil => intro ts bs rest h; simp [matchPat] at h; obtain ⟨rfl, rfl⟩ := h; simp [reassemble, params]
+  | cons p ps ih =>
+    intro ts bs rest h
+    cases p with
+    | word w =>
+      cases ts with
+      | nil => simp [matchPat] at h
+      | cons t r =>
+        simp only [matchPat] at h
+        split at h
+        · rename_i htw
+          obtain ⟨h1, h2, h3⟩ := ih r bs rest h
+          refine ⟨?_, by simpa [params] using h2, h3⟩
+          simp [reassemble, htw, ← h1]
+        · simp at h
+    | param n =>
+      simp only [matchPat] at h
+      split at h
+      · rename_i k hk
+        split at h
+        · rename_i bs' rest' hm
+          simp at h
+          obtain ⟨rfl, rfl⟩ := h
+          obtain ⟨h1, h2, h3⟩ := ih _ _ _ hm
+          have hb := argSearch_bounds ts k hk
+          refine ⟨?_, by simp [params, h2], ?_⟩
+          · simp only [reassemble, List.append_assoc]
+            rw [← h1, List.take_append_drop]
+          · intro b hbm
+            simp at hbm
+            rcases hbm with rfl | hbm
+            · simp only [ne_eq, List.take_eq_nil_iff, not_or]
+              refine ⟨by omega, ?_⟩
+              intro h0; subst h0; simp at hb; omega
+            · exact h3 b hbm
+        · simp at h
+      · simp at h
+
+theorem reassemble_length : ∀ (ps : List Pat) (bs : List Binding), bs.length = (params ps).length →
+    (reassemble ps bs).length = wordCount ps + (bs.map (·.2.length)).sum := by
+  intro ps
+  induction ps with
+  | nil => intro bs h; simp [params] at h; subst h; simp [reassemble, wordCount]
+  | cons p ps ih =>
+    intro bs h
+    cases p with
+    | word w => simp [reassemble, wordCount, ih bs (by simpa [params] using h)]; omega
+    | param n =>
+      cases bs with
+      | nil => simp [params] at h
+      | cons b bs => simp [reassemble, wordCount, ih bs (by simpa [params] using h)]; omega
+
+theorem sum_ge_mem (l : List Nat) (x : Nat) (h : x ∈ l) : x ≤ l.sum := by
+  induction l with
+  | nil => cases h
+  | cons a r ih =>
+    simp at h ⊢
+    rcases h with rfl | h
+    · omega
+    · have := ih h; omega
+
+/-- **Nested calls terminate.**  If the pattern contains at least one word (which
+`validateAliasHasWord` demands of every declared alias), every argument is strictly shorter than
+the call it belongs to: the sub-parser started for an argument always gets fewer tokens than its
+parent consumed, so the recursion through `checkAlias` is bounded by the number of tokens. -/
+theorem arg_shorter_than_call (ps : List Pat) (ts : List Tok) (bs : List Binding) (rest : List Tok)
+    (h : matchPat ps ts = some (bs, rest)) (hw : 0 < wordCount ps) :
+    ∀ b ∈ bs, b.2.length < (reassemble ps bs).length ∧ (reassemble ps bs).length + rest.length = ts.length := by
+  obtain ⟨h1, h2, _⟩ := matchPat_partition ps ts bs rest h
+  intro b hb
+  have hl : bs.length = (params ps).length := by rw [← h2]; simp
+  have := reassemble_length ps bs hl
+  have hs := sum_ge_mem (bs.map (·.2.length)) b.2.length (List.mem_map.mpr ⟨b, hb, rfl⟩)
+  refine ⟨by omega, ?_⟩
+  conv => rhs; rw [h1]
+  simp
+
+/-- without a word the bound fails: the alias `"<x>"` matches a call consisting of its own
+argument only, and the argument's sub-parser gets all the tokens of its parent again -/
+theorem no_word_no_progress :
+    let ts := [Tok.mk .num 7, Tok.mk .other 0]
+    matchPat [.param 1] ts = some ([(1, [Tok.mk .num 7])], [Tok.mk .other 0]) ∧ wordCount [.param 1] = 0 := by decide
+
+/-- **Arguments are bound by name, not by position.**  Renaming the placeholders of a pattern
+renames the bindings accordingly and changes nothing else — in particular two aliases that differ
+only in which parameter stands where bind the same tokens to swapped names. -/
+theorem bind_by_name (f : Nat → Nat) : ∀ (ps : List Pat) (ts : List Tok),
+    matchPat (ps.map (Pat.rename f)) ts =
+      (matchPat ps ts).map (fun r => (r.1.map (fun b => (f b.1, b.2)), r.2)) := by
+  intro ps
+  induction ps with
+  | nil => intro ts; simp [matchPat]
+  | cons p ps ih =>
+    intro ts
+    cases p with
+    | word w =>
+      cases ts with
+      | nil => simp [matchPat, Pat.rename]
+      | cons t r =>
+        simp only [List.map_cons, Pat.rename, matchPat]
+        split
+        · exact ih r
+        · simp
+    | param n =>
+      simp only [List.map_cons, Pat.rename, matchPat]
+      cases argSearch ts with
+      | none => simp
+      | some k =>
+        simp only [ih (ts.drop k)]
+        cases matchPat ps (ts.drop k) with
+        | none => simp
+        | some r => simp
+
+/-- **`checkAlias` binds what `Search` matched.**  For a pattern that matched, cutting the
+arguments out again (with the second loop, which never fails) gives the same bindings. -/
+theorem cutArgs_eq : ∀ (ps : List Pat) (ts : List Tok) (bs : List Binding) (rest : List Tok),
+    matchPat ps ts = some (bs, rest) → cutArgs ps ts = bs := by
+  intro ps
+  induction ps with
+  | nil => intro ts bs rest h; simp [matchPat] at h; simp [cutArgs, h.1]
+  | cons p ps ih =>
+    intro ts bs rest h
+    cases p with
+    | word w =>
+      cases ts with
+      | nil => simp [matchPat] at h
+      | cons t r =>
+        simp only [matchPat] at h
+        split at h
+        · simpa [cutArgs] using ih r bs rest h
+        · simp at h
+    | param n =>
+      simp only [matchPat] at h
+      split at h
+      · rename_i k hk
+        split at h
+        · rename_i bs' rest' hm
+          simp at h
+          obtain ⟨rfl, rfl⟩ := h
+          simp [cutArgs, spanCheck_eq ts k hk, ih _ _ _ hm]
+        · simp at h
+      · simp at h
+
+/-- **What follows a call does not change how it is matched.** -/
+theorem matchPat_append : ∀ (ps : List Pat) (ts ex : List Tok) (bs : List Binding) (rest : List Tok),
+    matchPat ps ts = some (bs, rest) → matchPat ps (ts ++ ex) = some (bs, rest ++ ex) := by
+  intro ps
+  induction ps with
+  | nil => intro ts ex bs rest h; simp [matchPat] at h; obtain ⟨rfl, rfl⟩ := h; simp [matchPat]
+  | cons p ps ih =>
+    intro ts ex bs rest h
+    cases p with
+    | word w =>
+      cases ts with
+      | nil => simp [matchPat] at h
+      | cons t r =>
+        simp only [matchPat] at h
+        simp only [List.cons_append, matchPat]
+        split at h
+        · rename_i htw; simp [htw, ih r ex bs rest h]
+        · simp at h
+    | param n =>
+      simp only [matchPat] at h
+      split at h
+      · rename_i k hk
+        split at h
+        · rename_i bs' rest' hm
+          simp at h
+          obtain ⟨rfl, rfl⟩ := h
+          have hb := argSearch_bounds ts k hk
+          simp only [matchPat, argSearch_append ts ex k hk]
+          rw [List.drop_append_of_le_length hb.2, ih _ ex _ _ hm, List.take_append_of_le_length hb.2]
+        · simp at h
+      · simp at h
+
+/-! ### non-vacuity: `nimm <a> von <b>` on `nimm -3 von ( f ( 1 ) ) .` -/
+
+example :
+    let w (i : Nat) : Tok := ⟨.num, i⟩        -- identifiers: 1 = nimm, 3 = f
+    let von : Tok := ⟨.other, 2⟩
+    let lp : Tok := ⟨.lparen, 0⟩; let rp : Tok := ⟨.rparen, 0⟩; let dot : Tok := ⟨.other, 9⟩
+    let ts := [w 1, ⟨.negate, 0⟩, w 30, von, lp, w 3, lp, w 31, rp, rp, dot]
+    matchPat [.word (w 1), .param 10, .word von, .param 11] ts =
+      some ([(10, [⟨.negate, 0⟩, w 30]), (11, [lp, w 3, lp, w 31, rp, rp])], [dot]) ∧
+    -- the same call without anything after the closing parenthesis is not matched (`p.atEnd()`)
+    matchPat [.word (w 1), .param 10, .word von, .param 11] (ts.take 10) = none := by decide
+
+end DDP.AliasMatch
